@@ -93,6 +93,52 @@ theorem C13_subtype_sound (s : Schema) (fuel : Nat) (target sub : TRef) (hd : no
         | named _ => simp [subStructural] at h
         | list _ => simp [subStructural] at h
 
+theorem typeEq_spec (s : Schema) (a b : TRef) (h : typeEq a b = true) : isSubTypeSpec s a b = true := by
+  rw [typeEq_eq a b h]; exact spec_refl s b
+
+/-- **C13_subtype_exact.**  The repaired covariance test (the form the translator reads from
+`Object.isSubType` on this run) is exactly IsValidImplementationFieldType, for every schema and every pair of
+type expressions of any depth. -/
+theorem C13_subtype_exact (s : Schema) (fuel : Nat) (target sub : TRef) (h : sub.depth < fuel) :
+    isSubTypeFixed s fuel target sub = isSubTypeSpec s target sub := by
+  induction fuel generalizing target sub with
+  | zero => omega
+  | succ f ih =>
+    cases sub with
+    | nonNull b =>
+      have hb : b.depth < f := by simp [TRef.depth] at h; omega
+      cases target with
+      | nonNull t =>
+        simp only [isSubTypeFixed, isSubTypeSpec, ih t b hb]
+        cases hte : typeEq (TRef.nonNull t) (TRef.nonNull b) with
+        | false => simp
+        | true =>
+          simp only [typeEq] at hte
+          simp [typeEq_spec s t b hte]
+      | named a => simp [isSubTypeFixed, isSubTypeSpec, ih _ b hb, typeEq]
+      | list t => simp [isSubTypeFixed, isSubTypeSpec, ih _ b hb, typeEq]
+    | named b =>
+      cases target with
+      | named a => simp [isSubTypeFixed, isSubTypeSpec, typeEq]
+      | list t => simp [isSubTypeFixed, isSubTypeSpec, typeEq]
+      | nonNull t => simp [isSubTypeFixed, isSubTypeSpec, typeEq]
+    | list u =>
+      have hu : u.depth < f := by simp [TRef.depth] at h; omega
+      cases target with
+      | list t =>
+        simp only [isSubTypeFixed, isSubTypeSpec, ih t u hu, typeEq]
+        cases hte : typeEq t u with
+        | false => simp
+        | true => simp [typeEq_spec s t u hte]
+      | named a => simp [isSubTypeFixed, isSubTypeSpec, typeEq]
+      | nonNull t => simp [isSubTypeFixed, isSubTypeSpec, typeEq]
+
+/-- the repaired test accepts the covariant implementation the first commit refused -/
+example :
+    let s : Schema := [.iface "Node" [⟨"self", .named "Node", [], []⟩] [],
+                       .object "Obj" ["Node"] [⟨"self", .nonNull (.named "Obj"), [], []⟩] []]
+    isSubTypeFixed s 2 (.named "Node") (.nonNull (.named "Obj")) = true := by decide
+
 /-- **C13_dev_subtype (D45).**  `interface Node { self: Node }`, `type Obj implements Node { self: Obj! }`:
 `Obj!` is a valid implementation type for `Node` and the coded test refuses it — a well-formed schema
 is rejected. -/
